@@ -377,6 +377,54 @@ def h_hcb(env, m, canary=False):
                          f"HCB {m} orbitals: map(H)|pairs {k}> = Slater-Condon row within the paired space")
 
 
+def sym_integrals4(env, m, lo=-2, hi=2):
+    """real integrals of a Hermitian, spin-free Hamiltonian WITHOUT the extra symmetry of real orbitals:
+    (ij|kl) = (kl|ij) = (ji|lk) only (as for complex orbitals / model Hamiltonians)"""
+    const = env.real("E0", lo, hi)
+    h = [[None] * m for _ in range(m)]
+    for i in range(m):
+        for j in range(i, m):
+            h[i][j] = h[j][i] = env.real(f"h{i}{j}", lo, hi)
+    eri = [[[[None] * m for _ in range(m)] for _ in range(m)] for _ in range(m)]
+    for i, j, k, l in itertools.product(range(m), repeat=4):
+        if eri[i][j][k][l] is None:
+            v = env.real(f"g{i}{j}{k}{l}", lo, hi)
+            for (a, b, c, d) in ((i, j, k, l), (k, l, i, j), (j, i, l, k), (l, k, j, i)):
+                eri[a][b][c][d] = v
+    return const, h, eri
+
+
+def h_hcb_general(env, m, canary=False):
+    """HCB on a Hermitian number- and spin-conserving Hamiltonian whose two-body integrals have only the 4-fold symmetry;
+    oracle = action of the fermionic operator itself (operator route), restricted to the paired space"""
+    from symx import shim
+    from tangelo.toolboxes.qubit_mappings.mapping_transform import fermion_to_qubit_mapping
+    const, h, eri = sym_integrals4(env, m)
+    terms = fock.molecular_hamiltonian_terms(const, h, eri, m)
+    H = build_fermion_op(terms)
+    old = shim.ALLOC_OBJECT
+    shim.ALLOC_OBJECT = bool(env.symbolic)
+    try:
+        q = fermion_to_qubit_mapping(H, "HCB", n_spinorbitals=2 * m).terms
+    finally:
+        shim.ALLOC_OBJECT = old
+    for k in itertools.product((0, 1), repeat=m):
+        f = tuple(x for ki in k for x in (ki, ki))
+        got = PB.pauli_apply(q, k, exact=env.symbolic)
+        row = fock.apply_operator(terms, f)
+        exp = {}
+        for g, v in row.items():
+            if all(g[2 * i] == g[2 * i + 1] for i in range(m)):
+                kk = tuple(g[2 * i] for i in range(m))
+                exp[kk] = exp.get(kk, 0) + v
+        if canary and sum(k) == 1 and m >= 2:
+            kk = next(x for x in exp if x != k and sum(x) == 1)
+            exp[kk] = exp[kk] * 2
+        keys = sorted(set(got) | set(exp))
+        env.check_vec_eq([got.get(x, 0) for x in keys], [exp.get(x, 0) for x in keys],
+                         f"HCB {m} orbitals, integrals with 4-fold symmetry only: map(H)|pairs {k}> = H|pairs {k}> within the paired space")
+
+
 def h_comb(env, m, na, nb, canary=False):
     import math
     from symx import shim
@@ -516,6 +564,7 @@ def shapes(tier, seed):
     # (e)
     for m in ((2, 3) if quick else (2, 3, 4)):
         out.append(Shape(f"hcb/m{m}", h_hcb, dict(m=m), modules=MODS))
+        out.append(Shape(f"hcb4fold/m{m}", h_hcb_general, dict(m=m), modules=MODS))
     out.append(Shape("canary/hcb", h_hcb, dict(m=2, canary=True), modules=MODS, canary=True))
     # (f)  every (n_alpha, n_beta) with at least two configurations
     import math
